@@ -57,7 +57,7 @@ cbor_item_t* cbor_build_stringn(const char* val, size_t length) {
   _CBOR_NOTNULL(item);
   unsigned char* handle = _cbor_malloc(length);
   _CBOR_DEPENDENT_NOTNULL(item, handle);
-  memcpy(handle, val, length);
+  if (length > 0) memcpy(handle, val, length);
   cbor_string_set_handle(item, handle, length);
   return item;
 }
